@@ -372,6 +372,64 @@ def check_partial_output(wd, sieve, stats):
                    'summary': 'output "OK" + 3 bits: ' + str({k: (v[0], v[1].decode('latin1')) for k, v in got.items() if v != (0, b'OK')})})
 
 
+def check_breakpoints(wd, sieve, stats):
+    """label breakpoints through every route and option mix (-s, -d with a path / bare / absent, -b / -B): the run pauses at the label -
+    answering `q` stops the program before the bytes after the label are printed, answering `c` lets it print all of them."""
+    import io
+    import flipjump
+    from flipjump.interpreter.io_devices.FixedIO import FixedIO
+    from fjv.asm import quiet
+    root = wd / 'bp'
+    root.mkdir()
+    bits = lambda bs: ''.join(f'IO+{(b >> i) & 1};\n' for b in bs for i in range(8))  # noqa
+    src = root / 'bp.fj'
+    src.write_text(';code\nIO:\n;0\ncode:\n' + bits(b'\x01\x02') + 'mid_label:\n' + bits(b'\x03\x04') + 'end:\n;end\n')
+    runs = []
+    for s_opt, d_opt, b_opt in itertools.product(([], ['-s']), ([], ['-d'], ['-d', 'PATH']), (['-b', 'mid_label'], ['-B', 'id_lab'])):
+        runs.append(('one-step', s_opt, d_opt, b_opt))
+    for s_opt, b_opt in itertools.product(([], ['-s']), (['-b', 'mid_label'], ['-B', 'id_lab'])):
+        runs.append(('two-step', s_opt, ['-d', 'PATH'], b_opt))
+    for answer, want3 in ((b'q\n', False), (b'c\n', True)):
+        for k, (route, s_opt, d_opt, b_opt) in enumerate(runs):
+            dbg = root / f'r{k}.fjd'
+            d_args = [str(dbg) if x == 'PATH' else x for x in d_opt]
+            if route == 'one-step':
+                rc, so, se = cli([str(src), '--no_stl'] + s_opt + d_args + b_opt, stdin=answer)
+                stats['cli_runs'] += 1
+            else:
+                out = root / f'r{k}.fjm'
+                rc0, _, se0 = cli(['--asm', str(src), '--no_stl', '-o', str(out)] + d_args)
+                rc, so, se = cli(['--run', str(out)] + s_opt + d_args + b_opt, stdin=answer)
+                stats['cli_runs'] += 2
+            stats['configs'] += 1
+            got12, got3 = b'\x01\x02' in so, b'\x03' in so
+            if not got12 or got3 != want3:
+                sieve.add({'kind': 'a label breakpoint is not honoured by every route / option mix', 'class': f'breakpoint {route} {s_opt} {d_opt}',
+                           'case': {'route': route, 'options': s_opt + d_opt + b_opt, 'answer': answer.decode().strip(), 'program': src.read_text()},
+                           'expected': 'bytes 01 02 printed, then the debugger prompt; 03 04 only after `c`',
+                           'observed': {'rc': rc, 'printed_01_02': got12, 'printed_03': got3, 'stderr': se[-200:].decode('latin1')},
+                           'summary': f'{route} {s_opt + d_opt + b_opt} answer {answer!r}: printed 01 02: {got12}, printed 03: {got3} (expected {want3})'})
+        # the API route
+        for kw in ({'breakpoints': {'mid_label'}}, {'breakpoints_contains': {'id_lab'}}):
+            dev = FixedIO(b'')
+            old_stdin = sys.stdin
+            sys.stdin = io.StringIO(answer.decode())
+            try:
+                with quiet():
+                    flipjump.assemble_and_debug([src], use_stl=False, io_device=dev, print_time=False, print_termination=False, **kw)
+                got = dev.get_output(allow_incomplete_output=True)
+            except Exception as e:  # noqa
+                got = f'{type(e).__name__}: {str(e)[:80]}'.encode()
+            finally:
+                sys.stdin = old_stdin
+            stats['configs'] += 1
+            exp = b'\x01\x02\x03\x04' if want3 else b'\x01\x02'
+            if got != exp:
+                sieve.add({'kind': 'a label breakpoint is not honoured by every route / option mix', 'class': 'breakpoint api',
+                           'case': {'route': 'assemble_and_debug', 'options': sorted(kw), 'answer': answer.decode().strip()}, 'expected': exp.hex(), 'observed': got.hex() if len(got) < 9 else got.decode('latin1'),
+                           'summary': f'assemble_and_debug {sorted(kw)} answer {answer!r}: output {got!r} instead of {exp!r}'})
+
+
 def check_werror(wd, sieve, stats):
     """a program that raises an assembler warning: with --werror every route refuses it, without it every route accepts it -
     whatever the other options (-s, -w, -v) are."""
@@ -478,8 +536,8 @@ def work(task):
     sieve = Sieve(PROP)
     stats = {'configs': 0, 'cli_runs': 0}
     wd = scratch()
-    if kind in ('defaults', 'default-device', 'paths', 'werror', 'partial'):
-        {'defaults': check_defaults, 'default-device': check_default_device, 'paths': check_path_spellings, 'werror': check_werror, 'partial': check_partial_output}[kind](wd, sieve, stats)
+    if kind in ('defaults', 'default-device', 'paths', 'werror', 'partial', 'breakpoints'):
+        {'defaults': check_defaults, 'default-device': check_default_device, 'paths': check_path_spellings, 'werror': check_werror, 'partial': check_partial_output, 'breakpoints': check_breakpoints}[kind](wd, sieve, stats)
         return stats, sieve.result(), None
     sample = None
     api_user_history(part, wd)
@@ -517,7 +575,7 @@ def main():
     if args.replay:
         return replay(args)
     run = Run(PROP, 'exploration', args)
-    tasks = [(k, args.tier, 0, 1) for k in ('defaults', 'default-device', 'paths', 'werror', 'partial')] + [('cfg', args.tier, p, 32) for p in range(32)]
+    tasks = [(k, args.tier, 0, 1) for k in ('defaults', 'default-device', 'paths', 'werror', 'partial', 'breakpoints')] + [('cfg', args.tier, p, 32) for p in range(32)]
     total, samples = {}, []
     for stats, res, sample in pmap(work, tasks, args.jobs):
         for k, v in stats.items():
